@@ -2,6 +2,8 @@
 //   names --prop C13|C14 --seed N --cases M --out stats.json --faildir DIR     |   names --replay FILE
 #include <rapidcheck.h>
 #include "names.hpp"
+#include <sys/wait.h>
+#include <unistd.h>
 #include <sys/stat.h>
 
 int main(int argc, char **argv) {
@@ -46,6 +48,23 @@ int main(int argc, char **argv) {
       int sc = -1, ip = -1, dim = -1; try { Quiet q; if (prec) { sc = masa_sanity_check<long double>(); ip = masa_init_param<long double>(); masa_get_dimension<long double>(&dim); } else { sc = masa_sanity_check<double>(); ip = masa_init_param<double>(); masa_get_dimension<double>(&dim); } } catch (int) { violation(n + ": sanity_check/init_param raised the fatal error right after masa_init"); continue; }
       if (sc != 0) violation(n + ": masa_sanity_check returns " + std::to_string(sc) + " right after masa_init"); if (ip != 0) violation(n + ": masa_init_param returns " + std::to_string(ip));
       auto di = cs.dimension.find(n); if (di != cs.dimension.end() && dim != di->second) violation(n + ": masa_get_dimension returns " + std::to_string(dim) + ", its evaluators take " + std::to_string(di->second) + " spatial coordinates"); }
+    // the catalogue in ONE registry: every entry is initialised under a handle spelled like its own name (the idiom of the library's tests), then
+    // a second handle ("recheck") is initialised with each entry in turn, the first handle is selected back and must still be that solution.
+    // Runs in a forked child: a registry that frees a live instance is reported as a violation, not as a dead worker.
+    for (int prec = 0; prec < 2; prec++) { int pfd[2]; if (pipe(pfd) != 0) break; fflush(stdout); fflush(stderr); pid_t pid = fork();
+      if (pid == 0) { close(pfd[0]); alarm(300); std::string rep; auto say = [&](const std::string &m) { rep += m + "\n"; };
+        try { { Quiet q; masa_verif_reset(); for (auto &n : cat) { if (prec) masa_init<long double>(n, n); else masa_init<double>(n, n); } }
+          for (auto &n : cat) { std::string nm; int sc = -1, dim = -1; { Quiet q; if (prec) { masa_init<long double>("recheck", n); masa_select_mms<long double>(n); masa_get_name<long double>(&nm); sc = masa_sanity_check<long double>(); masa_get_dimension<long double>(&dim); } else { masa_init<double>("recheck", n); masa_select_mms<double>(n); masa_get_name<double>(&nm); sc = masa_sanity_check<double>(); masa_get_dimension<double>(&dim); } }
+            if (nm != n) say("catalogue walk: after masa_init('recheck','" + n + "') the handle '" + n + "' reports the solution name '" + show(nm) + "'");
+            bool fixture = n == "masa_test_function" || n == "masa_uninit"; if (!fixture && sc != 0) say("catalogue walk: masa_sanity_check returns " + std::to_string(sc) + " on handle '" + n + "' after another handle was initialised with the same solution");
+            auto di = cs.dimension.find(n); if (!fixture && di != cs.dimension.end() && dim != di->second) say("catalogue walk: masa_get_dimension returns " + std::to_string(dim) + " on handle '" + n + "'"); }
+          { Quiet q; masa_verif_reset(); } } catch (int e) { say("catalogue walk: fatal error " + std::to_string(e) + " raised by a legal call"); }
+        size_t off = 0; while (off < rep.size()) { ssize_t w = write(pfd[1], rep.data() + off, rep.size() - off); if (w <= 0) break; off += (size_t)w; } close(pfd[1]); _exit(0); }
+      close(pfd[1]); std::string in; char buf[4096]; ssize_t k; while ((k = read(pfd[0], buf, sizeof buf)) > 0) in.append(buf, k); close(pfd[0]); int stt = 0; waitpid(pid, &stt, 0);
+      st.count("evaluations", (long long)cat.size()); st.count("class:catalogue_walk_entry", (long long)cat.size());
+      if (WIFSIGNALED(stt)) violation(std::string("catalogue walk (") + (prec ? "long double" : "double") + "): every entry initialised under a handle spelled like its name, then a second handle per entry: the library ended the process with signal " + std::to_string(WTERMSIG(stt)));
+      else if (WIFEXITED(stt) && WEXITSTATUS(stt) != 0) violation("catalogue walk: the library ended the process with exit status " + std::to_string(WEXITSTATUS(stt)));
+      std::istringstream ss(in); std::string l; int shown = 0; while (std::getline(ss, l)) if (!l.empty() && shown++ < 5) violation(l); }
     // generated part: every provided evaluator at random interior points with default parameters
     rc::detail::TestParams tp; tp.seed = mix64(seed ^ 0xc14); tp.maxSuccess = cases; tp.maxSize = 100; rc::detail::TestMetadata md; md.id = "C14:interior-points"; md.description = md.id;
     auto fn = [&]() { if (budget == 0) return; if (budget > 0) budget--;
